@@ -644,6 +644,80 @@ pub struct Wide {
     pub keep: u8,
 }
 
+/// A property that every keyframe holds at one and the same extreme value - the largest finite f32,
+/// or close to it - must show that value at every time, whatever easing is in force: a convex or
+/// overshooting combination of two equal numbers is that number. (The animator enters the animated
+/// states from the same value, so no blend from elsewhere is involved; the other property moves
+/// between moderate values under the same easing.)
+#[derive(Animate, Clone, Debug, Default, PartialEq)]
+pub struct Peak {
+    pub x: f32,
+    pub y: f32,
+}
+
+pub fn extreme_constant_probe(ops: &[(Op, Fault)], variant: u64) -> Option<String> {
+    let c: f32 = match variant % 4 {
+        0 => f32::MAX,
+        1 => -f32::MAX,
+        2 => 3.3e38,
+        _ => -3.2e38,
+    };
+    let easing = match (variant >> 2) % 6 {
+        0 => Easing::OutBack,
+        1 => Easing::InBack,
+        2 => Easing::InOutBack,
+        3 => Easing::OutExpo,
+        4 => Easing::Linear,
+        _ => Easing::InOutCirc,
+    };
+    let tl = |e: Easing| {
+        Peak::timeline()
+            .duration_seconds(1.25)
+            .default_easing(e)
+            .reverse((variant >> 5) & 1 == 1)
+            .repeat(Repeat::Times(1))
+            .keyframe(Peak::keyframe(0.0).x(c).y(-3.0))
+            .keyframe(Peak::keyframe(0.5).x(c))
+            .keyframe(Peak::keyframe(1.0).x(c).y(40.0))
+    };
+    let held = |v: &Peak, what: &str| -> Option<String> {
+        // (finite, and the constant up to the rounding of the weighted sum)
+        if v.x.is_finite() && (v.x as f64 - c as f64).abs() <= 8.0 * f32::EPSILON as f64 * c.abs() as f64 && v.y.is_finite() {
+            None
+        } else {
+            Some(format!(
+                "a property held at {c:e} by every keyframe (easing {easing:?}): {what} shows x = {:e}, y = {:e}",
+                v.x, v.y
+            ))
+        }
+    };
+    let bare = TimelineBuilder::build(tl(easing.clone()));
+    for i in 0..=50 {
+        let t = i as f32 * 0.0625;
+        let mut v = Peak { x: c, y: 0.0 };
+        bare.update(&mut v, t);
+        if let Some(d) = held(&v, &format!("Timeline::update at t={t}")) {
+            return Some(d);
+        }
+    }
+    let mut anim = StateAnimatorBuilder::new()
+        .from_state(Sh::C)
+        .from_values(Peak { x: c, y: 0.0 })
+        .on(Sh::A, tl(easing.clone()))
+        .on(Sh::B, tl(Easing::OutBack).duration_seconds(0.75))
+        .build();
+    for (i, (op, _)) in ops.iter().enumerate() {
+        match op {
+            Op::Advance(dt) => anim.advance(*dt),
+            Op::SetState(s) => anim.set_state(&SH[*s as usize % 3]),
+        }
+        if let Some(d) = held(anim.current_values(), &format!("operation {i} ({op:?})")) {
+            return Some(d);
+        }
+    }
+    None
+}
+
 /// Segments whose two ends are both exactly zero, values below f32's smallest normal number, large
 /// magnitudes of both signs: every value an f64 property shows must stay finite.
 pub fn f64_probe(ops: &[(Op, Fault)], variant: u64) -> Option<String> {
